@@ -182,7 +182,7 @@ def scenario_from_emit(rec):
             d[k] = unparse.py_value(v, heap, memo)
         names_py.append(d)
     host = {}
-    for k, b in rec['host'].items():
+    for k, b in (rec['host'] or {}).items() if isinstance(rec['host'], dict) else []:
         b2 = dict(b)
         if b['h'] == 'probe':
             b2['ret'] = unparse.py_value(b['ret'], heap, memo)
